@@ -182,6 +182,22 @@ def run(ctx, rep):
                     rep.ok("R-SERDE", key, cfg=tag)
                 else:
                     rep.bad("R-SERDE", key, why, F.loc(b), tag)
+    # any further method of the serde impls (e.g. an overridden `deserialize_in_place`) must not write into a shared value:
+    # "deserialising produces a new handle that is the sole owner"
+    for tag, F, E in ctx.each():
+        if not any("feature=serde" == c for c in F.raw["cfg"]):
+            continue
+        G = c03.Gates(F)
+        for b in F.body_list:
+            imp = b.get("impl") or {}
+            if imp.get("trait") not in (SER, DE) or F.handle_name(imp["self_ty"]) not in ("Arc", "UniqueArc") or b.get("name") in ("serialize", "deserialize"):
+                continue
+            bad = c03.unjustified_producers(F, E, G, b)
+            ik = b["key"]
+            if bad:
+                rep.bad("R-SERDE", ik, "%s writes into the value of a handle that may be shared (line %s): deserialisation must yield a fresh sole owner, never change what other owners see" % (b["key"], bad[0][1]["line"]), F.loc(b, bad[0][1]), tag)
+            else:
+                rep.ok("R-SERDE", ik, cfg=tag)
     if seen_cfg == 0:
         rep.bad("ANCHOR-LOST", "R-SERDE/configurations", "no analysed configuration enables the serde feature (it is on by default)", None, None)
     rep.floor("R-SERDE", 4, "serialize and deserialize for Arc and UniqueArc")
